@@ -199,6 +199,11 @@ class Metadata:
                 dset.attrs['type'] = 'tuple'.encode('utf-8')
             # of tuples
             elif any([isinstance(v[i], tuple) for i in range(len(v))]):
+                # members must be numbers or flat tuples of numbers - anything
+                # else would read back as a different type
+                for x in v:
+                    if not (isinstance(x, Number) or (isinstance(x, tuple) and all([isinstance(y, Number) for y in x]))):
+                        raise Exception(f"Metadata only supports writing tuples of tuples containing numbers; found type {type(x)}")
                 dset_grp = grp.create_group(k)
                 dset_grp.attrs['type'] = 'tuple_of_tuples'.encode('utf-8')
                 dset_grp.attrs['length'] = len(v)
